@@ -220,7 +220,12 @@ func readBodyIdentity(r network.Reader, maxBodySize int, dst []byte) ([]byte, er
 		if nn == 0 {
 			_, err := r.Peek(1)
 			if err != nil {
-				return dst[:offset], nil
+				if errors.Is(err, io.EOF) {
+					return dst[:offset], nil
+				}
+				// Only the close of the connection ends such a body. A read timeout or a reset in the
+				// middle of it is a failure: what was read so far is not the body.
+				return dst[:offset], err
 			}
 			nn = r.Len()
 		}
